@@ -14,9 +14,10 @@ History kinds (the `names` sent and what differs between A's and B's files):
     k1  names=all                  trips dropped / times moved / scenario 2's services changed
     k2  names=schedules            trips dropped / times moved only (what `schedules` re-reads: the per-line files)
     k3  names=scenarios,schedules  trips / times / scenario 2
+    k6  names=schedules,scenarios  the same with the schedules named FIRST (the handler reloads in the order given)
     k4  names=all                  A is written WITHOUT one kind of files (S starts not ready: data_error), B is complete
     k5  names=all                  A complete, B is written WITHOUT one kind of files (S must start answering data_error)
-Both connection-cache modes (--cacheAllConnectionSets false / true).  Q = 9 requests over scenarios 1, 2, 3: route, route
+Both connection-cache modes (--cacheAllConnectionSets false / true).  Q = 10 requests over scenarios 1, 2, 3 (the last one on scenario 2): route, route
 with alternatives, summary (with and without alternatives), accessibility; departure and arrival time types.  Q is sent
 before the refresh too, so the scenarios asked after it have cached connection sets from the old timetable.
 
@@ -31,11 +32,11 @@ from concurrent.futures import ThreadPoolExecutor
 sys.path.insert(0, os.path.dirname(os.path.abspath(__file__)))
 import build, gen, l3  # noqa: E402
 
-KINDS = ("k1", "k2", "k3", "k4", "k5")
-NAMES = {"k1": "all", "k2": "schedules", "k3": "scenarios,schedules", "k4": "all", "k5": "all"}
+KINDS = ("k1", "k2", "k3", "k4", "k5", "k6")
+NAMES = {"k1": "all", "k2": "schedules", "k3": "scenarios,schedules", "k4": "all", "k5": "all", "k6": "schedules,scenarios"}
 # what can be left out of a cache directory, and the data status a server started on the rest reports
 OMITTABLE = ("lines", "paths", "schedules", "scenarios", "agencies", "services", "nodes")
-QUICK_PLAN = [("k1", False), ("k2", True), ("k3", False), ("k4", True), ("k5", False), ("k4", False), ("k5", True), ("k1", True)]
+QUICK_PLAN = [("k1", False), ("k2", True), ("k3", False), ("k4", True), ("k5", False), ("k4", False), ("k5", True), ("k1", True), ("k6", False), ("k6", True)]
 QUICK_OMITS = {3: "lines", 4: "paths", 5: "schedules", 6: "lines"}      # history index -> kind of files left out
 
 
@@ -48,7 +49,7 @@ def omit_files(ds, what):
     return ("%s.capnpbin" % what,)
 
 
-def modify(rng, ds, scen_too=True, new_line=False):
+def modify(rng, ds, scen_too=True, new_line=False, force_scen=False):
     """A second dataset on the same stops / footpaths / lines / paths (deep copy): some trips dropped, whole trips moved by
     +-60..900 s, some trips delayed from one stop on (times stay >= 0 and ordered), scenario 2's service list changed."""
     d = copy.deepcopy(ds)
@@ -74,7 +75,7 @@ def modify(rng, ds, scen_too=True, new_line=False):
         (tid, path, service, times) = trips[0]
         trips[0] = (tid, path, service, [(a + 60, dp + 60, cb, cu) for (a, dp, cb, cu) in times])
     d.trips = trips
-    if scen_too and rng.chance(0.7):
+    if scen_too and (rng.chance(0.7) or force_scen):
         d.scens = [(sid, ([rng.choice([[2], [1, 2]])] + [list(x) for x in ls[1:]]) if sid == 2 else ls) for (sid, ls) in d.scens]
     if new_line and d.paths and d.trips:
         # names=all only: B also has a line (with a path and trips) that A does not have, and scenario 3 of B filters on it
@@ -127,7 +128,8 @@ def make_requests(rng, ds, prof):
     add("route", 1); add("access", 1)
     add("route", 2); add("summary", 2, True)
     add("access", 3); add("route", 3)
-    return out
+    add("route", 1)          # the LAST request before a refresh is on scenario 2, whose definition the refresh changes: the
+    return out               # one-entry cache then holds exactly the set a refresh must not keep or rebuild from old definitions
 
 
 def ask(srv, stub, req):
@@ -169,14 +171,14 @@ def history_spec(seed, tier, index):
         kind, cache_all = QUICK_PLAN[index % len(QUICK_PLAN)]
         omit = QUICK_OMITS.get(index % len(QUICK_PLAN)) if kind in ("k4", "k5") else None
     else:
-        kind, rnd = KINDS[index % 5], index // 5
+        kind, rnd = KINDS[index % len(KINDS)], index // len(KINDS)
         cache_all = rnd % 2 == 1
         # k4 and k5 of the same round leave out different kinds of files; 12 rounds go through all of them
         omit = {"k4": OMITTABLE[rnd % len(OMITTABLE)], "k5": OMITTABLE[(rnd + 3) % len(OMITTABLE)]}.get(kind)
     rng = gen.Rng((seed * 7919 + 15) * 1000 + index)
     prof = dict(gen.PROFILES["opt"], pempty=0.02)
     A = gen.gen_dataset(rng.fork(), prof)
-    B = modify(rng.fork(), A, scen_too=(kind != "k2"), new_line=(kind in ("k1", "k4")))
+    B = modify(rng.fork(), A, scen_too=(kind != "k2"), new_line=(kind in ("k1", "k4")), force_scen=(kind in ("k3", "k6")))
     reqs = make_requests(rng.fork(), A, prof)
     return dict(index=index, kind=kind, cache_all=cache_all, omit=omit, names=NAMES[kind], A=A, B=B, requests=reqs)
 
